@@ -29,7 +29,7 @@ def generate(seed, stratum, tier):
   kw = {'nstates': rng.randrange(2, 10)}
   ops, weights = ('ev',), None
   if host != 'instrumented':
-    kw.update({'fx_rate': rng.choice([0.0, 0.3]), 'fx_ops': ('post_fifo', 'post_lifo', 'defer', 'recall', 'scribble')})
+    kw.update({'fx_rate': rng.choice([0.0, 0.3]), 'fx_ops': ('post_fifo', 'post_lifo', 'defer', 'recall', 'scribble') + (('clear_spy',) if rng.random() < 0.3 else ())})
   if host == 'queued':
     ops, weights = ('ev', 'post_fifo', 'post_lifo', 'rtc', 'circuit', 'defer', 'recall', 'read'), (5, 2, 2, 4, 1, 1, 1, 1)
   if host != 'instrumented' and rng.random() < 0.3:
